@@ -11,6 +11,11 @@ class Raised(Exception):
         self.name = name
 
 
+class _InlineExit(Exception):
+    def __init__(self, block_id):
+        self.block_id = block_id
+
+
 class _Break(Exception):
     pass
 
@@ -108,6 +113,15 @@ def _stmt(st, env):
         return
     if isinstance(st, ast.Pass):
         return
+    if isinstance(st, A.InlineBlock):
+        try:
+            _block(st.body, env)
+        except _InlineExit as x:
+            if x.block_id != st.block_id:
+                raise
+        return
+    if isinstance(st, A.InlineExit):
+        raise _InlineExit(st.block_id)
     if isinstance(st, ast.FunctionDef):
         env[st.name] = FuncObj(st, env)
         return
@@ -142,6 +156,23 @@ def _stmt(st, env):
             except RuntimeError:
                 raise Raised("RuntimeError")
             _store(st.target, item, env)
+            try:
+                _block(st.body, env)
+            except _Break:
+                broke = True
+                break
+            except _Continue:
+                continue
+        if not broke:
+            _block(st.orelse, env)
+        return
+    if isinstance(st, ast.While):
+        rounds = 0
+        broke = False
+        while _ev(st.test, env):
+            rounds += 1
+            if rounds > env.get("__max_iter__", 1000):
+                raise Raised("<nontermination>")
             try:
                 _block(st.body, env)
             except _Break:
@@ -347,6 +378,9 @@ def _ev(e, env):
             base = _ev(e.func.value, env)
             if isinstance(base, (str, bytes)):
                 return getattr(base, e.func.attr)(*_args(e, env))
+        if d in ("operator.itemgetter", "itemgetter") and len(e.args) == 1:
+            import operator as _op
+            return _op.itemgetter(_ev(e.args[0], env))
         if d == "sorted":
             kw = {k.arg: _ev(k.value, env) for k in e.keywords}
             return sorted(_ev(e.args[0], env), **kw)
